@@ -285,3 +285,12 @@ pub fn get_expression_as_method(ec: &dyn Expression) -> (r: Option<&ExpressionMe
 pub fn verif_f64_is_sign_negative(d: f64) -> (r: bool) {
     d.is_sign_negative()
 }
+
+/// R19: `Box::new(node)` coerced to `Box<dyn Expression>`: the same node behind the trait object
+#[verifier::external_body]
+pub fn verif_boxed<T: Expression + 'static>(x: T) -> (r: Box<dyn Expression>)
+    ensures
+        r.tree() == x.tree(),
+{
+    Box::new(x)
+}
